@@ -39,3 +39,35 @@ def replay_decode(msg, enc, hexbm, cfg):
         diff = sorted(k for k in set(got) | set(want) if got.get(k) != want.get(k))
         return True, 'decoded dict differs from the independent reading at %s' % diff[:6], 'C02/decode-value'
     return False, 'ok', None
+
+
+def replay_reconfig_encode(msgs, cfgs, enc, hexbm):
+    """one configuration dict object, edited in place between the uses"""
+    import copy
+    cfg = {}
+    res = (False, 'ok', None)
+    for m, c in zip(msgs, cfgs):
+        cfg.clear()
+        cfg.update(copy.deepcopy(c))
+        res = replay_encode(m, enc, hexbm, cfg)
+        if res[0]:
+            return res
+    return res
+
+
+def replay_unencodable(msg, enc):
+    from cardutil import iso8583
+    from cardutil.config import config
+    cfgs = config['bit_config']
+    try:
+        got = iso8583.dumps(dict(msg), encoding=enc)
+    except Exception as e:
+        return False, 'refused (%s)' % type(e).__name__, None
+    try:
+        d, _ = ref.ref_decode(got, cfgs, enc, False)
+    except ref.RefError as e:
+        return True, 'emitted a malformed message: %s (%r)' % (e, got[20:60]), 'C02/unencodable'
+    bad = [k for k, v in msg.items() if k != 'MTI' and d.get(k) != v]
+    if bad:
+        return True, 'emitted, but %s read back as %r' % (bad[0], d.get(bad[0])), 'C02/unencodable'
+    return False, 'ok', None
